@@ -46,8 +46,10 @@ def h(cfg):
     outside = cfg.get('outside') and choose('outside', 2)
     w, tasks = sched.build_wbs(P)
     if outside:
-        x = Task(99, 'X', estimate=fresh_real('est_x', 0, 12, grid=None))
         tgt = choose('outside_to', P.n)
+        # the outside task may share its id with a leaf of this WBS (ids are unique per WBS only)
+        xid = [99] + [i + 1 for i in range(P.n) if i != tgt][:1]
+        x = Task(xid[choose('outside_id', len(xid))], 'X', estimate=fresh_real('est_x', 0, 12, grid=None))
         tasks[tgt].predecessors.append(x)
         d += f' outside-pred-of={tgt}'
     note('desc', d)
@@ -118,13 +120,17 @@ BASE = {'grid': None, 'milestones': False, 'resources': ['r'], 'calendars': ['de
 def harnesses(tier):
     if tier == 'quick':
         return [
-            {'name': 'n3-missing-values-outside', 'fn': h, 'cfg': dict(BASE, n=3, est_none=True, spent_none=True, outside=True)},
-            {'name': 'n4', 'fn': h, 'cfg': dict(BASE, n=4, spent_none=False)},
+            {'name': 'n3-missing-values', 'fn': h, 'cfg': dict(BASE, n=3, est_none=True, spent_none=True)},
+            {'name': 'n3-outside', 'fn': h, 'cfg': dict(BASE, n=3, spent_none=False, outside=True)},
+            {'name': 'n4-summary-links', 'fn': h, 'cfg': dict(BASE, n=4, spent_none=False, fixed_parent=[-1, 0, 0, -1])},
+            {'name': 'n4-flat', 'fn': h, 'cfg': dict(BASE, n=4, spent_none=False, hierarchy=False, link_pairs=[(0, 1), (0, 2), (1, 3), (2, 3)])},
             {'name': 'binary64-regression-menu', 'fn': h_float_menu, 'cfg': {}},
         ]
     return [
-        {'name': 'n4-missing-values-outside', 'fn': h, 'cfg': dict(BASE, n=4, est_none=True, spent_none=True, outside=True)},
-        {'name': 'n5', 'fn': h, 'cfg': dict(BASE, n=5, spent_none=False)},
+        {'name': 'n3-missing-values-outside', 'fn': h, 'cfg': dict(BASE, n=3, est_none=True, spent_none=True, outside=True)},
+        {'name': 'n4', 'fn': h, 'cfg': dict(BASE, n=4, spent_none=False)},
+        {'name': 'n4-outside', 'fn': h, 'cfg': dict(BASE, n=4, spent_none=False, outside=True, link_pairs=[(0, 1), (1, 2), (2, 3), (0, 3)])},
+        {'name': 'binary64-regression-menu', 'fn': h_float_menu, 'cfg': {}},
     ]
 
 
